@@ -130,3 +130,23 @@ def result_violation(v: Violation, log: EventLog, stats: Stats) -> Dict[str, Any
 
 def sig_str(sig) -> str:
     return "|".join(sig)
+
+
+def fresh_models():
+    """Simulated process restart for the library's process-global state: the registry of data-model objects
+    (data_algebra.data_model.data_model_type_map) is emptied and re-filled with brand-new PandasModel / PolarsModel
+    instances, so no run inherits hidden state a previous run in the same lane left on them (which would both make
+    runs depend on their lane neighbours and vaccinate later runs against state-leak defects)."""
+    import data_algebra.data_model
+    import data_algebra.pandas_model
+    import data_algebra.polars_model
+
+    data_algebra.data_model.data_model_type_map.clear()
+    data_algebra.pandas_model.register_pandas_model()
+    data_algebra.polars_model.register_polars_model()
+    from data_algebra.data_schema import SchemaCheckSwitch
+
+    try:
+        SchemaCheckSwitch().on()
+    except Exception:
+        pass
